@@ -16,10 +16,10 @@ def run(tier):
     parts = seqxrun.run_shards(exe, args, timeout=3000)
     fails = [p for p in parts if "_crash" in p or "_timeout" in p]
     tot = seqxrun.merge([p for p in parts if p not in fails])
-    tot["bound"] = "BFS with state merging: call sequences <= %d over 16 calls; without merging: every sequence <= %d over the 11 non-null calls" % (DEPTH[tier], NODEDUP[tier])
+    tot["bound"] = "BFS with state merging: call sequences <= %d over 17 calls; without merging: every sequence <= %d over the 12 non-null calls" % (DEPTH[tier], NODEDUP[tier])
     return seqxrun.finish(
         PROP, tier, "model_checking", tot, t,
-        rule="BFS over all sequences of the 11 typed insert/clear calls + 5 null-argument calls up to the depth bound on the real "
+        rule="BFS over all sequences of the 11 typed insert/clear calls + 5 null-argument calls + setFormatter() with the formatter object that is already installed up to the depth bound on the real "
              "SortedPipeline; state = handlers() as (class, rank in class); every (state, call) transition executed; "
              "distinct_nontrivial = distinct class arrangements observed; in addition every call sequence up to a smaller depth is "
              "executed on its own without state merging (guards against hidden state that handlers() does not show)",
@@ -33,7 +33,7 @@ def replay(path):
     case = json.load(open(path))["case"]
     names = ["appendAttrHandler", "appendFilter", "setFormatter", "appendSink", "appendPipeline", "clearAttrHandlers",
              "clearFilters", "clearFormatters", "clearSinks", "clearPipelines", "clear", "appendAttrHandler(null)",
-             "appendFilter(null)", "setFormatter(null)", "appendSink(null)", "appendPipeline(null)"]
+             "appendFilter(null)", "setFormatter(null)", "appendSink(null)", "appendPipeline(null)", "setFormatter(the installed one again)"]
     ops = ",".join(str(names.index(n)) for n in case["history"])
     res = seqxrun.run_one(exe, ["--replay-ops", ops], timeout=60)
     print(json.dumps(res, indent=1))
